@@ -101,5 +101,6 @@ pub fn build(s: &Spec) -> BoxSource {
     Spec::Replace { inner, repls } => build_replace(inner, repls).boxed(),
     Spec::Cached(inner) => CachedSource::new(build(inner)).boxed(),
     Spec::Boxed(inner) => build(inner).boxed(),
+    Spec::Custom { text } => crate::custom::CustomSource { text: text.clone(), map: None }.boxed(),
   }
 }
